@@ -313,6 +313,11 @@ func (a *Analyzer) readsOf(f *ssa.Function) map[string]bool {
 
 func (a *Analyzer) atomReads(at *Atom) map[string]bool {
 	out := map[string]bool{}
+	if at.Pred == "fresh" && len(at.Args) == 2 {
+		// a statement about the moment of insertion: later updates of the set do not invalidate it
+		a.termReads(at.Args[1], out)
+		return out
+	}
 	for _, t := range at.Args {
 		a.termReads(t, out)
 	}
